@@ -2,7 +2,7 @@
 //!
 //! Op file (one `case` = one data model + data set + any number of queries):
 //!   case id=<n> e=c05 ns=<0|1>
-//!   ent k=<i>
+//!   ent k=<i> [opt=<none|empty|nofts>]      entity options of the grammar: `E()` / `E(no_full_text_index)`
 //!   fld e=<i> k=<j> ty=<I|S|B|R|A> [to=<entity>] mod=<r|n|d> [dv=<Val>] [late=1] [then=<Val>]
 //!        (then: a nullable field becomes `default <Val>` in the upgraded model)
 //!   build                               create the first model version (fields without late=1) and the database
@@ -66,6 +66,7 @@ pub enum SelItem {
 pub struct Case {
     pub ns: bool,
     pub ents: Vec<Vec<FieldDef>>,
+    pub ent_opts: Vec<String>,
     pub db: Option<Conn>,
     pub uids: HashMap<u64, String>,   // logical id -> uid text
     pub logical: HashMap<String, u64>, // uid text -> logical id
@@ -130,7 +131,7 @@ fn model_text(c: &Case, upto_late: usize) -> String {
             }
             fields.push(format!("f{}: {}", j, type_text(c, f, upto_late > 0)));
         }
-        s.push_str(&format!(" E{} {{ {} }}", i, fields.join(", ")));
+        s.push_str(&format!(" E{}{} {{ {} }}", i, c.ent_opts.get(i).map(|x| x.as_str()).unwrap_or(""), fields.join(", ")));
     }
     s.push_str(" }");
     s
@@ -382,7 +383,14 @@ pub fn step(c: &mut Case, kind: &str, kv: &HashMap<String, String>, stats: &mut 
     match kind {
         "ent" => match num("k") {
             Some(k) if k == c.ents.len() => {
+                let opt = match kv.get("opt").map(|s| s.as_str()).unwrap_or("none") {
+                    "none" => "",
+                    "empty" => "()",
+                    "nofts" => "(no_full_text_index)",
+                    _ => return "bad-op".into(),
+                };
                 c.ents.push(vec![]);
+                c.ent_opts.push(opt.to_string());
                 "ok".into()
             }
             _ => "bad-op".into(),
